@@ -13,7 +13,7 @@ git -C /repo worktree add -f "$S/repo" HEAD -q || exit 2
 mkdir -p "$S/sim" && SIM_DIR="${SIM_DIR:-/verif/sim}"; cp -r "$SIM_DIR/src" "$SIM_DIR/Cargo.toml" "$SIM_DIR/Cargo.lock" "$S/sim/" && mkdir -p "$S/sim/.cargo"
 sed -i "s|path = \"/repo\"|path = \"$S/repo\"|" "$S/sim/Cargo.toml"
 printf '[net]\noffline = true\n[build]\ntarget-dir = "%s/target"\n' "$S" > "$S/sim/.cargo/config.toml"
-case "$prop" in C10) what=srcsim;; C12) what=lifesim;; C13) what=c13;; *) echo "unknown property"; exit 2;; esac
+case "$prop" in C10) what=srcsim;; C12) what=c12;; C13) what=c13;; *) echo "unknown property"; exit 2;; esac
 for p in "$@"; do
   name=$(basename "$p" .diff)
   git -C "$S/repo" checkout -q -- . ; git -C "$S/repo" clean -fdq
